@@ -16,7 +16,7 @@ try:
 except Exception:
     traceback.print_exc()
     sys.exit(2)
-for o in ctx.violations:
+for o in ctx.new_violations:
     print("VIOL", o.rule, o.where, o.construct, o.desc, str(o.witness)[:600])
 for o in ctx.undecideds:
     print("UNDEC", o.rule, o.where, o.construct, o.desc, str(o.witness)[:600])
